@@ -1,3 +1,5 @@
+import numpy as np
+
 from kappadata.common.transforms.byol_transforms import BYOLTransform0, BYOLTransform1
 from kappadata.common.transforms.mugs_transforms import MUGSStrongGlobalTransform, MUGSStrongLocalTransform
 from kappadata.datasets.kd_wrapper import KDWrapper
@@ -58,7 +60,7 @@ class MUGSMultiViewWrapper(KDWrapper):
         if self.seed is not None:
             rng = np.random.default_rng(seed=self.seed + idx)
             for transform in self.transforms:
-                if isinstance(transform, (KDComposeTransform, KDStochasticTransform)):
+                if isinstance(transform, KDTransform):
                     transform.set_rng(rng)
         else:
             rng = GlobalRng()
